@@ -296,8 +296,36 @@ def _scale_cases():
                    int_opts=False, history=False, default_penalty=False, a="1", c="1", sub=4 * k + 1, wscale="1/4", scale_case=True)
 
 
+def _zero_slice_cases():
+    """n-D fits in which a COMPLETE slice of the array (a whole row, column or slab) has weight zero while the rest is observed:
+    the fitted values there are the tensor-product spline B'beta, not 0."""
+    rng = Rng("C05-zero-slice-block")
+    k = 0
+    for d in (2, 3):
+        for axis in range(d):
+            k += 1
+            dims = []
+            for j in range(d):
+                m = ([6, 5] if d == 2 else [4, 3, 4])[j]
+                x = rng.grid(m, lo=0, scale=2)
+                dims.append(dict(nseg=rng.randint(1, 2), p=rng.randint(1, 2), lam=rs(Fraction(rng.choice([1, Fraction(1, 2), 2]))), x=[rs(v) for v in x],
+                                 wide=False, dmin=rs(x[0]), dmax=rs(x[-1])))
+            shape = [len(dd["x"]) for dd in dims]
+            w = np.ones(shape)
+            idx = [slice(None)] * d
+            idx[axis] = rng.randrange(shape[axis])
+            w[tuple(idx)] = 0.0
+            if k % 2 == 0:
+                w[w > 0] = 0.5
+            n = int(np.prod(shape))
+            yield dict(kind=f"fit{d}", d=d, ord=rng.randint(1, 2), dims=dims, y=[rs(v) for v in rng.dyadics(n, -4, 4, 2)],
+                       w=[rs(Fraction(float(v))) for v in w.ravel()], wk="zero-slice", yk="rand", int_opts=False, history=False, default_penalty=False,
+                       a="1", c="2", sub=10 * k + 3, wscale="1/4")
+
+
 def gen_cases(rng: Rng, tier):
     _TIER[0] = tier
+    yield from _zero_slice_cases()
     yield from _scale_cases()
     yield from _layout_cases()
     yield from _dtype_cases()
